@@ -657,7 +657,7 @@ func runCase(t *testing.T, c *sim.Case, script []int16, strict bool) (*sim.Viola
 
 func gen(r *sim.Rng, tier string) *sim.Case {
 	c := &sim.Case{Params: map[string]int{}}
-	c.Params["limit"] = []int{-1, 0, 1, 1, 2, 2, 3, 5}[r.N(8)]
+	c.Params["limit"] = []int{-1, 0, 1, 1, 2, 2, 3, 4, 5, 7}[r.N(10)]
 	c.Params["handler"] = r.Pick(1, 3)
 	nEff := c.Params["limit"]
 	if nEff < 1 {
